@@ -11,14 +11,14 @@ ASSUMPTIONS = ["caller discipline of the statement: at most one decode operation
 POLICIES = ["plain", "eod", "eof"]
 
 
-def gen_jobs(rng, sc, ncases, ev, flags="b"):
+def gen_jobs(rng, sc, ncases, ev, flags="b", tag="c"):
     jobs = []
     for ci in range(ncases):
         ms = RG.random_archive(rng, nmax=rng.choice([1, 2, 3, 4, 6, 9]))
         pol = rng.choice(POLICIES)
-        a, g = RG.write_case(sc, "c%d" % ci, ms, pol)
+        a, g = RG.write_case(sc, "%s%d" % (tag, ci), ms, pol)
         for si in range(3):
-            xd = os.path.join(sc, "x%d_%d" % (ci, si))
+            xd = os.path.join(sc, "x%s%d_%d" % (tag, ci, si))
             os.makedirs(xd)
             ops = RG.random_ops(rng, len(ms))
             kind = rng.choice(["path", "FILE", "cb", "cbns", "pipe"]) if si else "path"
@@ -38,6 +38,31 @@ def run(tier, seed, ev):
         jobs = gen_jobs(rng, sc, 150 if tier == "quick" else 2500, ev)
         res = TR.run_sharded(drv, jobs, sc, "gen")
         viols, good = TR.validate_all("Trace_Reader", "Trace_Reader", res, ev, "C15")
+        # two readers over two archives: interleaved call by call, and on two threads; each reader's
+        # trace is validated on its own - a shared mutable would make one of them deviate
+        d2 = V.build_driver("reader2_drv", "san")
+        pj = gen_jobs(rng, sc, 40 if tier == "quick" else 600, ev, flags="b", tag="p")
+        pj = [j for j in pj if j.split()[3] in ("path", "cb")]
+        pj = pj[:len(pj) // 2 * 2]
+        import subprocess
+
+        def two(mode, k, lines):
+            jf = os.path.join(sc, "pair_%s_%d.txt" % (mode, k))
+            open(jf, "w").write("\n".join(lines) + "\n")
+            oa, ob = os.path.join(sc, "pair_%s_%d_a.ndjson" % (mode, k)), os.path.join(sc, "pair_%s_%d_b.ndjson" % (mode, k))
+            p = subprocess.run([d2, mode, jf, oa, ob], capture_output=True, env=V.run_env(), timeout=1200)
+            return [(jf, oa, len(lines) // 2, p), (jf, ob, len(lines) // 2, p)]
+        pres = []
+        nsh = 4
+        for mode in ("interleave", "threads"):
+            for k in range(nsh):
+                sub = [x for i in range(k * 2, len(pj) - 1, nsh * 2) for x in pj[i:i + 2]]
+                if sub:
+                    pres += two(mode, k, sub)
+        v2, g2 = TR.validate_all("Trace_Reader", "Trace_Reader", pres, ev, "C15")
+        viols += v2
+        good += g2
+        ev.set("two_reader_executions", g2)
         mcr = mc.result()
     ev.tlc(mcr)
     if mcr.violation:
